@@ -30,6 +30,18 @@ Create(c, k) ==
           /\ ev' = [e |-> "create", c |-> c, key |-> k, t |-> now, res |-> "created", ns |-> 0]
           /\ UNCHANGED <<leader, gout, gid, ngate>>
   /\ UNCHANGED <<cfg, now, lres>>
+\* the property is silent on whether the elected leader's inner call starts in Service::call or at its first
+\* poll (the election itself is what Service::call decides): "elected" = leader of its key, inner call not started yet
+CreateDeferred(c, k) ==
+  /\ st[c] = "idle" /\ leader[k] = 0 /\ key' = [key EXCEPT ![c] = k]
+  /\ st' = [st EXCEPT ![c] = "elected"] /\ leader' = [leader EXCEPT ![k] = c]
+  /\ ev' = [e |-> "create", c |-> c, key |-> k, t |-> now, res |-> "created", ns |-> 0]
+  /\ UNCHANGED <<cfg, now, follows, lres, gout, gid, ngate>>
+PollLeaderStart(c) ==
+  /\ st[c] = "elected" /\ st' = [st EXCEPT ![c] = "leading"]
+  /\ gout' = [gout EXCEPT ![c] = "pending"] /\ gid' = [gid EXCEPT ![c] = ngate + 1] /\ ngate' = ngate + 1
+  /\ ev' = [e |-> "poll", c |-> c, t |-> now, res |-> "pending", ns |-> 1, si |-> ngate + 1, nd |-> 0]
+  /\ UNCHANGED <<cfg, now, key, leader, follows, lres>>
 Complete(c, o) ==
   /\ st[c] = "leading" /\ gout[c] = "pending" /\ gout' = [gout EXCEPT ![c] = o]
   /\ ev' = [e |-> "complete", c |-> c, i |-> gid[c], out |-> o, t |-> now]
@@ -60,23 +72,24 @@ PollStutter(c) ==
   /\ ev' = [e |-> "poll", c |-> c, t |-> now, res |-> "pending", ns |-> 0, nd |-> 0]
   /\ UNCHANGED <<cfg, now, st, key, leader, follows, lres, gout, gid, ngate>>
 Drop(c) ==
-  /\ st[c] \in {"leading", "waiting"} /\ st' = [st EXCEPT ![c] = "done"]
-  /\ IF st[c] = "leading" THEN (leader' = Free(c) /\ lres' = [lres EXCEPT ![c] = "gone"]) ELSE UNCHANGED <<leader, lres>>
+  /\ st[c] \in {"leading", "waiting", "elected"} /\ st' = [st EXCEPT ![c] = "done"]
+  /\ IF st[c] \in {"leading", "elected"} THEN (leader' = Free(c) /\ lres' = [lres EXCEPT ![c] = "gone"]) ELSE UNCHANGED <<leader, lres>>
   /\ ev' = [e |-> "drop", c |-> c, t |-> now, ns |-> 0, ndr |-> (IF st[c] = "leading" THEN 1 ELSE 0)]
   /\ UNCHANGED <<cfg, now, key, follows, gout, gid, ngate>>
 \* nobody waits for ever: before time passes every waiter whose leader is no longer in flight has resolved
 Quiescent == \A c \in Callers : /\ ~(st[c] = "waiting" /\ lres[follows[c]] # "none")
                                 /\ ~(st[c] = "leading" /\ gout[c] \notin {"none", "pending"})
+                                /\ st[c] # "elected"
 Advance(d) ==
   /\ d > 0 /\ Quiescent /\ now' = now + d /\ ev' = [e |-> "advance", d |-> d, t |-> now + d]
   /\ UNCHANGED <<cfg, st, key, leader, follows, lres, gout, gid, ngate>>
-PollAny(c) == PollLeader(c) \/ PollWaiter(c) \/ PollStutter(c)
+PollAny(c) == PollLeader(c) \/ PollWaiter(c) \/ PollStutter(c) \/ PollLeaderStart(c)
 Next ==
   \/ \E c \in Callers : (\E k \in Keys : Create(c, k)) \/ PollLeader(c) \/ PollWaiter(c) \/ Drop(c)
   \/ \E c \in Callers, o \in Outs : Complete(c, o)
   \/ (now < MaxTime /\ Advance(1))
 Spec == Init /\ [][Next]_vars
 \* C11 at design level
-OneInnerPerKey == \A k \in Keys : Cardinality({c \in Callers : st[c] = "leading" /\ key[c] = k}) <= 1
+OneInnerPerKey == \A k \in Keys : Cardinality({c \in Callers : st[c] \in {"leading", "elected"} /\ key[c] = k}) <= 1
 WaitersFollowLiveOrResolved == \A c \in Callers : st[c] = "waiting" => follows[c] # 0 /\ key[follows[c]] = key[c]
 =============================================================================
